@@ -245,6 +245,8 @@ class EnvObj(object):
         if hasattr(self, "gen_items"):
             o.gen_items = list(self.gen_items)
             o.gen_pc0 = self.gen_pc0
+            if hasattr(self, "gen_consumer"):
+                o.gen_consumer = self.gen_consumer
         return o
 
 
